@@ -24,8 +24,10 @@ synchronous code was deferred); a second run_jobs prints nothing; every run_jobs
 A budget run whose evaluation never yielded (`yields` = 0) is counted as trivial.
 Candidates are confirmed alone and reduced (vlib/reduce.py) before being reported.
 
-Open findings: /verif/known/c16_findings.json (replayed on every run; the main stream avoids exactly their shape
-through gen_async's `avoid` flags; a second, smaller stream without the flags is compared boa-vs-boa only).
+Findings: /verif/known/c16_findings.json.  Every entry's exact reproducer is replayed on every run (open: reported as
+KNOWN-FINDING while it fails the recorded way; fixed: a regression test).  The V8-compared stream keeps out the shapes
+named by gen_async.AVOID_DOC (today only a spec change newer than V8 11.3); a second, smaller stream without the flags is
+compared boa-vs-boa across the schedules only.
 """
 import json
 import os
@@ -167,8 +169,6 @@ def trace_invariants(trace, sync_len, p_completion):
             seen[t] = i
         if m.group(1) in "rq" and k_end is not None and i < k_end:
             out.append("reaction %s ran synchronously, before `sync-end` (line %d)" % (t, i))
-        if m.group(1) in "rq" and k_end is None and p_completion.startswith("value:"):
-            pass
     return out
 
 
@@ -312,10 +312,13 @@ class Runner:
 
 # ------------------------------------------------------------------ known findings
 def replay_known(chk, rn):
+    """open entries: still failing the recorded way -> KNOWN-FINDING, differently -> violation, not failing -> nothing;
+    fixed entries are regression tests: their reproducer must agree with the reference again"""
     for e in load_known():
-        if e.get("status") != "open":
+        status = e.get("status")
+        rep = e.get("reproducer")
+        if status not in ("open", "fixed") or not rep:
             continue
-        rep = e["reproducer"]
         src, ka, kb = rep["src"], rep.get("schedule", "base"), rep.get("against", "v8")
         par = rep.get("par", {})
         sa = steps_for(ka, src, par)
@@ -327,9 +330,11 @@ def replay_known(chk, rn):
             chk.inconc("known-replay:not-comparable")
             continue
         if v == "":
-            continue  # no longer failing
+            continue  # not failing (any more)
         got = xa.get("trace")
-        if rep.get("observed_trace") is None or got == rep["observed_trace"]:
+        if status == "fixed":
+            chk.violation("finding %s (fixed in %s) is back: %s" % (e["id"], e.get("commit"), v), {"kind": "pair", "src": src, "a": ka, "b": kb, "par": par})
+        elif rep.get("observed_trace") is None or got == rep["observed_trace"]:
             chk.known_finding(e, "%s - %s: boa prints %s, spec order (and V8) %s" % (e["id"], e["title"], got, (xb.get("trace") if isinstance(xb, dict) else None)))
         else:
             chk.violation("known finding %s now fails differently: %s" % (e["id"], v), {"kind": "pair", "src": src, "a": ka, "b": kb, "par": par})
@@ -610,7 +615,7 @@ def report(chk, eng, rn, stt, limit=4):
 def run(tier, seed):
     chk = core.Check("C16", tier, seed)
     thorough = tier == "thorough"
-    n_main, n_free, rounds = (8100, 900, 3) if thorough else (2250, 250, 1)
+    n_main, n_free, rounds = (6750, 750, 3) if thorough else (2250, 250, 1)
     scale = float(os.environ.get("C16_SCALE", "1") or 1)   # development knob (smoke-testing a tier); evidence records the real counts
     if scale != 1:
         n_main, n_free = max(20, int(n_main * scale)), max(5, int(n_free * scale))
